@@ -8,3 +8,5 @@ import TrionModel.Props.C18
 import TrionModel.Props.C10
 import TrionModel.Props.C11
 import TrionModel.Props.C12
+import TrionModel.Props.C15
+import TrionModel.Props.C13
